@@ -455,6 +455,9 @@ func (e *Env) RunUntil(cond func() bool) bool {
 			idleStreak = 0
 			if key == sameKey && strings.HasPrefix(key, "run:") {
 				sameN++
+				if e.Sim.LastWasTick {
+					sameN += 400 // a tick stands for thousands of yields passed without blocking
+				}
 				if sameN > e.LivelockSteps {
 					e.Livelock = key
 					return false
